@@ -33,6 +33,7 @@ def reject_case(draw):
     shape = [draw(st.integers(2, 8)), draw(st.integers(3, 10))] if two_d else [draw(st.integers(5, 80))]
     n = int(np.prod(shape))
     wkind = draw(st.sampled_from(['invvar', 'sigma-array', 'sigma-scalar']))
+    both = draw(st.sampled_from([0, 0, 1, 2]))
     lims = draw(st.sampled_from([['lower', 'upper'], ['upper'], ['lower'], ['maxdev'], ['lower', 'upper', 'maxdev'], []]))
     # a limit of exactly 0 is legal: everything on that side of the model is beyond it
     lower = draw(st.one_of(st.sampled_from([0, 0.0]), uf.map(lambda v: 2 + 3 * 0.5 * (1 + v)), uf.map(lambda v: 2 + 3 * 0.5 * (1 + v)), uf.map(lambda v: 2 + 3 * 0.5 * (1 + v))))
@@ -43,7 +44,7 @@ def reject_case(draw):
     frac = [0.5 * (1 + draw(uf)) for _ in range(n)]
     inmask = draw(st.sampled_from([None, 'some', 'some']))
     prev = draw(st.sampled_from([None, 'some', 'some']))
-    return dict(shape=shape, grow=grow, wkind=wkind, lims=lims, lower=lower, upper=upper, maxdev=maxdev, dev=dev, frac=frac,
+    return dict(shape=shape, grow=grow, wkind=wkind, both=both, lims=lims, lower=lower, upper=upper, maxdev=maxdev, dev=dev, frac=frac,
                 inmask=None if inmask is None else [draw(st.integers(0, 5)) != 0 for _ in range(n)],
                 prev=None if prev is None else [draw(st.integers(0, 5)) != 0 for _ in range(n)],
                 sticky=draw(st.booleans()), zero_w=[draw(st.integers(0, 7)) == 0 for _ in range(n)], seed=draw(st.integers(0, 999)),
@@ -146,6 +147,11 @@ def reject_body(case):
         kw['sigma'] = sigv.reshape(shape)
     else:
         kw['sigma'] = 0.7
+    if case['wkind'] != 'invvar' and case.get('both'):
+        # "If both sigma and invvar are set, invvar is ignored": an inverse variance that tells another story (errors 4x smaller or
+        # 3x larger, some weights zero) next to the sigma
+        kw['invvar'] = (np.where(idx % 5 == 0, 0.0, (16.0 if case['both'] == 1 else 1 / 9.0) / np.maximum(sigv, 0.1) ** 2)).reshape(shape)
+        note_label('sigma-and-invvar')
     inmask = None if case['inmask'] is None else np.array(case['inmask'], dtype=bool)
     prev = None if case['prev'] is None else np.array(case['prev'], dtype=bool)
     if inmask is not None:
@@ -343,6 +349,10 @@ def sky_case(draw):
     top = BITS[dt]
     b1 = draw(st.one_of(st.integers(0, top), st.sampled_from([top, 27 if top >= 27 else top])))
     b2 = draw(st.integers(0, top).filter(lambda b: b != b1))
+    if draw(st.integers(0, 5)) == 0:
+        # the bit numbers of the real SPPIXMASK definition, whatever the width of the mask (D49): a 16-bit mask cannot carry them
+        dt = draw(st.sampled_from(['i2', 'u2', 'i4', 'i8', 'u8', 'u4']))
+        b1, b2 = 27, 28
     nrow, npix = draw(st.integers(1, 4)), draw(st.integers(3, 30))
     big = draw(st.integers(0, 9)) == 0          # a wide growth radius on a spectrum-sized row
     if big:
@@ -353,7 +363,8 @@ def sky_case(draw):
                       draw(st.sampled_from(['sky', 'red', 'both']))])
     other = [[draw(st.integers(0, nrow - 1)), draw(st.integers(0, npix - 1)), draw(st.integers(0, top))] for _ in range(draw(st.integers(0, 8)))]
     return dict(dtype=dt, b1=b1, b2=b2, nrow=nrow, npix=npix, flags=flags, other=other, ngrow=draw(st.sampled_from([2, 0, 1, 3, 4])) if not big else draw(st.sampled_from([128, 127, 150, 64])),
-                with_ormask=draw(st.sampled_from([True, True, True, False])))
+                with_ormask=draw(st.sampled_from([True, True, True, False])),
+                and_flags=[[draw(st.integers(0, nrow - 1)), draw(st.integers(0, npix - 1))] for _ in range(draw(st.sampled_from([0, 0, 1, 3])))])
 
 
 def sky_body(case):
@@ -367,17 +378,27 @@ def sky_body(case):
         dt = np.dtype(case['dtype'])
         om = np.zeros((nrow, npix), dtype=dt)
         flagged = np.zeros((nrow, npix), dtype=bool)
+        width = 8 * dt.itemsize
         for r, c, k, in case['other']:
-            if k not in (case['b1'], case['b2']):
-                om[r, c] |= dt.type(1 << k)
+            if k not in (case['b1'], case['b2']) and k < width:
+                om[r, c] |= dt.type(1 << k) if dt.kind == 'u' or k < width - 1 else np.iinfo(dt).min
         for r, c, what in case['flags']:
+            if max(case['b1'], case['b2']) >= width:
+                continue            # the mask type has no such bits: nothing can be flagged
             if what in ('sky', 'both'):
-                om[r, c] |= dt.type(1 << case['b1'])
+                om[r, c] |= dt.type(1 << case['b1']) if dt.kind == 'u' or case['b1'] < width - 1 else np.iinfo(dt).min
             if what in ('red', 'both'):
-                om[r, c] |= dt.type(1 << case['b2'])
+                om[r, c] |= dt.type(1 << case['b2']) if dt.kind == 'u' or case['b2'] < width - 1 else np.iinfo(dt).min
             flagged[r, c] = True
+        if max(case['b1'], case['b2']) >= width:
+            note_label('mask-narrower-than-flags')
         iv = 1.0 + np.arange(nrow * npix, dtype='f8').reshape(nrow, npix) % 7
         am = np.zeros_like(om)
+        # the "and" mask is documented as ignored: flags in it (and only in it) mark nothing
+        for r, c in case.get('and_flags', []):
+            if max(case['b1'], case['b2']) < width - 1:
+                am[r, c] |= dt.type((1 << case['b1']) | (1 << case['b2']))
+                note_label('flags-in-andmask')
         keep = iv.copy()
         if case['with_ormask']:
             got = call(skymask, iv, am, om, ngrow=case['ngrow'])
